@@ -31,7 +31,8 @@ type srcEpoch struct {
 	ListMode string    `json:"list_mode"` // url
 	Lines    []string  `json:"lines"`     // url: the lines of the list
 	Files    []srcFile `json:"files"`
-	Missing  bool      `json:"missing"` // path: the root directory does not exist
+	Missing  bool      `json:"missing"`  // path: the root directory does not exist
+	RootErr  string    `json:"root_err"` // path: "" | "notdir" (the root's parent is a file) | "locked" (the root may not be listed)
 }
 
 type sourceIn struct {
@@ -145,16 +146,32 @@ func runSource(raw json.RawMessage) (interface{}, error) {
 			return nil, err
 		}
 		defer os.RemoveAll(tmp)
-		root := filepath.Join(tmp, "root")
+		os.Chmod(tmp, 0o755)
+		top := filepath.Join(tmp, "root")
+		root := filepath.Join(top, "certs")
+		defer os.Chmod(root, 0o755)
+		for _, e := range in.Epochs {
+			if e.RootErr == "locked" && !unprivAvailable() {
+				return nil, fmt.Errorf("modes cannot be exercised here (no unprivileged file-system identity)")
+			}
+			if e.RootErr != "" && e.RootErr != "locked" && e.RootErr != "notdir" {
+				return nil, fmt.Errorf("unknown root error")
+			}
+		}
 		step = func(i int) (map[string][]byte, error) {
 			if i >= len(in.Epochs) {
 				i = len(in.Epochs) - 1
 			}
 			e := in.Epochs[i]
-			if err := os.RemoveAll(root); err != nil {
+			os.Chmod(root, 0o755)
+			if err := os.RemoveAll(top); err != nil {
 				return nil, err
 			}
-			if !e.Missing {
+			if e.RootErr == "notdir" {
+				if err := os.WriteFile(top, []byte("a file where a directory is expected"), 0o644); err != nil {
+					return nil, err
+				}
+			} else if !e.Missing {
 				if err := os.MkdirAll(root, 0o755); err != nil {
 					return nil, err
 				}
@@ -171,6 +188,15 @@ func runSource(raw json.RawMessage) (interface{}, error) {
 						return nil, err
 					}
 				}
+			}
+			if e.RootErr == "locked" {
+				os.Chmod(root, 0)
+				var m map[string][]byte
+				var err error
+				if !asNobody(func() { m, err = cert.VerifLoadPath(root) }) {
+					return nil, fmt.Errorf("could not switch the file-system identity")
+				}
+				return m, err
 			}
 			m, err := cert.VerifLoadPath(root)
 			if m != nil {
@@ -300,6 +326,11 @@ func breakEpoch(r *hx.Rand, kind string, e srcEpoch) srcEpoch {
 	case x < 6:
 		c.Missing = true
 		c.Files = []srcFile{}
+	case x < 8:
+		c.RootErr = "notdir"
+		if unprivAvailable() && r.Chance(1, 2) {
+			c.RootErr = "locked"
+		}
 	default:
 		spoilPair()
 	}
@@ -356,6 +387,8 @@ func init() {
 			sourceIn{Kind: "path", RefreshMs: 1000, Epochs: []srcEpoch{{Files: good.Files}, dangling}},
 			sourceIn{Kind: "path", RefreshMs: 1000, Epochs: []srcEpoch{{Files: good.Files}, {Files: good2.Files}, {Files: good2.Files}}},
 			sourceIn{Kind: "path", RefreshMs: 1000, Epochs: []srcEpoch{{Files: good.Files}, {Missing: true, Files: []srcFile{}}}},
+			// the directory can no longer be reached: the working set must stay
+			sourceIn{Kind: "path", RefreshMs: 1000, Epochs: []srcEpoch{{Files: good.Files}, {RootErr: "notdir", Files: good.Files}}},
 		},
 		Gen: func(r *hx.Rand, i int) interface{} { return genSourceIn(r) },
 		Run: runSource,
